@@ -237,7 +237,7 @@ theorem sfailAtomic_iterate (KC : Codec K) (VC : Codec V) (m : Store) (pfx : Byt
     simp only [hk, if_true, List.mem_cons, List.not_mem_nil, or_false] at he
     subst he; simp [SOut.error, serrOf]
   · rename_i hk
-    simp only [hk, if_false] at he
+    simp only [hk] at he
     exact iterLoop_fail F.kvAfter stop _ 0 [] [] (by simp) (rs_kinds KC VC F _) e he hf
 
 theorem sfailAtomic_step (KC : Codec K) (VC : Codec V) (m : Store) (op : SOp K V) (F : SFaults) :
@@ -278,7 +278,7 @@ theorem serrTraced_step (KC : Codec K) (VC : Codec V) (m : Store) (op : SOp K V)
       cases hk
       exact ⟨⟨.kvIter, .fail⟩, by simp, rfl, rfl⟩
     · rename_i h1
-      simp only [h1, if_false, SOut.error] at hk
+      simp only [h1, SOut.error] at hk
       exact iterLoop_traced F.kvAfter stop _ 0 [] [] k (rs_kinds KC VC F _) hk
 
 /-! ### the iteration loop, declaratively -/
@@ -323,8 +323,8 @@ theorem iterLoop_spec (stop : Nat) (rs : List (Except SErr (K × V))) :
     | error er =>
       have hlen : ¬ (acc.length < stop ∧ stop ≤ acc.length + 0) := by omega
       cases er with
-      | decV => simp [hlen]
-      | decK => simp [hlen]
+      | decV => simp
+      | decK => simp
       | kv => simp at hr
       | encK => simp at hr
       | encV => simp at hr
